@@ -541,6 +541,11 @@ def namesBlock (files : List FileEntry) : Bytes :=
     let size := (names.map (fun n => 2 * (n.flatMap unitsOf).length + 2)).sum
     [0x11] ++ writeNumber (size + 1) ++ [0x00] ++ names.flatMap writeUtf16
 
+/-- the fixed-width little-endian value of a defined slot, nothing for an undefined one -/
+def slotBytes (w : Nat) : Slot Nat → Bytes
+  | .val t => leBytes t w
+  | _ => []
+
 /-- `_write_times` (archiveinfo.py:792-813).  `fixedSize = false` reproduces the size
     computation of the pinned tree (`bits_to_bytes(num_defined)`), `true` the repaired one. -/
 def timesBlock (fixedSize : Bool) (propid : Nat) (slots : List (Slot Nat)) : Bytes :=
@@ -549,7 +554,7 @@ def timesBlock (fixedSize : Bool) (propid : Nat) (slots : List (Slot Nat)) : Byt
   let size := numDefined * 8 + 2 +
     (if defined.all id then 0 else bitsToBytes (if fixedSize then defined.length else numDefined))
   [propid] ++ writeNumber size ++ writeBools defined true ++ [0x00] ++
-  slots.flatMap (fun s => match s with | .val t => leBytes t 8 | _ => [])
+  slots.flatMap (slotBytes 8)
 
 /-- `_write_attributes` (archiveinfo.py:842-860) -/
 def attrsBlock (fixedSize : Bool) (slots : List (Slot Nat)) : Bytes :=
@@ -558,7 +563,7 @@ def attrsBlock (fixedSize : Bool) (slots : List (Slot Nat)) : Bytes :=
   let size := numDefined * 4 + 2 +
     (if numDefined ≠ defined.length then bitsToBytes (if fixedSize then defined.length else numDefined) else 0)
   [0x15] ++ writeNumber size ++ writeBools defined true ++ [0x00] ++
-  slots.flatMap (fun s => match s with | .val t => leBytes t 4 | _ => [])
+  slots.flatMap (slotBytes 4)
 
 /-- the kDummy padding rule: `pos` is `file.tell()` of the underlying file -/
 def padBlock (pos : Nat) : Bytes :=
